@@ -29,15 +29,16 @@
     T *p = malloc((size_t)(n) * sizeof(T));                                                          \
     __CPROVER_assume(p != NULL)
 #else
+/* generic carrier of up to 64 named element values */
+struct h4v_nbuf { unsigned long long a[64]; };
+struct h4v_nbuf nondet_h4v_nbuf(void);
 #define H4V_ND_BUF(T, p, n, CAP)                                                                     \
-    __CPROVER_assume((n) <= (CAP));                                                                  \
+    __CPROVER_assume((n) <= (CAP) && (CAP) <= 64);                                                   \
     T *p = malloc((size_t)(n) * sizeof(T));                                                          \
     __CPROVER_assume(p != NULL);                                                                     \
-    struct h4v_nb_##p { T a[CAP]; };                                                                 \
-    struct h4v_nb_##p nondet_h4v_nb_##p(void);                                                       \
-    struct h4v_nb_##p p##_nd = nondet_h4v_nb_##p();                                                  \
+    struct h4v_nbuf p##_nd = nondet_h4v_nbuf();                                                      \
     for (int p##_i = 0; p##_i < (CAP); p##_i++)                                                      \
-        if (p##_i < (n)) p[p##_i] = p##_nd.a[p##_i]
+        if (p##_i < (n)) p[p##_i] = (T)(p##_nd.a[p##_i] & (((1ull << (8 * sizeof(T) - 1)) << 1) - 1ull))
 #endif
 #else /* native replay */
 #include <stdio.h>
